@@ -1043,7 +1043,13 @@ pub(super) fn poll_recv(
         // Window-update trigger: if we freed ≥ half the recv cap,
         // advertise. Crude SWS avoidance; refine alongside real flow
         // control.
-        let should_update = n >= recv_cap / 2;
+        //
+        // A read that starts from a full buffer must always advertise:
+        // the last window the peer saw was zero, it has nothing in flight
+        // and there is no persist probe, so nothing else would ever
+        // re-open the window.
+        let was_full = tcb.recv_buf.len() + n >= recv_cap;
+        let should_update = n >= recv_cap / 2 || (n > 0 && was_full);
         (n, should_update, local, peer)
     };
 
